@@ -23,6 +23,13 @@ for rel in files:
             for x in ast.walk(t):
                 if isinstance(x, ast.Name):
                     ns.add(x.id)
+    for c in ast.walk(mod):
+        if isinstance(c, ast.ClassDef):
+            for st in c.body:
+                for t in (st.targets if isinstance(st, ast.Assign) else [st.target] if isinstance(st, (ast.AnnAssign, ast.AugAssign)) else []):
+                    for x in ast.walk(t):
+                        if isinstance(x, ast.Name):
+                            ns.add(c.name + "." + x.id)
     names[rel] = sorted(ns)
 json.dump(names, open(os.path.join(os.path.dirname(os.path.abspath(__file__)), "..", "reference", "module_names.json"), "w"), indent=0, sort_keys=True)
 print(sum(len(v) for v in names.values()), "module-level names")
